@@ -1051,4 +1051,78 @@ theorem hostFold_vals (E : Env) (cfg : Cfg) (hE : HexDigest E) : ∀ (hs : List 
     congr
 
 
+/-! ## width-preserving mode keeps the invariant, raised calls included -/
+
+theorem ipStepW_pres (E : Env) (cfg : Cfg) (sl : St × Option Str) (ip : Str) : Pres E cfg sl.1 (ipStepW sl ip).1 := by
+  unfold ipStepW
+  cases h2 : sl.2 with
+  | none => exact Pres.refl _ _ _
+  | some line =>
+    simp only
+    by_cases hi : ipIgnore.contains ip = true
+    · rw [if_pos hi]; exact Pres.refl _ _ _
+    · rw [if_neg hi]
+      have := ipStep_pres E cfg (sl.1, line) ip
+      rw [ipStep_eq _ _ hi] at this
+      exact this
+
+theorem ipStageW_pres (E : Env) (cfg : Cfg) (st : St) (line : Str) : Pres E cfg st (ipStageW E st line).1 :=
+  foldl_pres E cfg (fun sl : St × Option Str => sl.1) ipStepW (fun sl x => ipStepW_pres E cfg sl x) _ (st, some line)
+
+theorem applyStageW_pres (E : Env) (cfg : Cfg) (hE : HexDigest E) (s : LSt) (line : Str) (stg : Stage) :
+    Pres E cfg s.1 (applyStageW E cfg s line stg).1.1 := by
+  cases stg <;> simp only [applyStageW]
+  case ip => exact ipStageW_pres E cfg _ _
+  all_goals exact applyStage_pres E cfg hE _ _ _
+
+theorem stageStepW_pres (E : Env) (cfg : Cfg) (hE : HexDigest E) (acc : LSt × Option (Option Str)) (stg : Stage) :
+    Pres E cfg acc.1.1 (stageStepW E cfg acc stg).1.1 := by
+  unfold stageStepW
+  split
+  · exact Pres.refl _ _ _
+  · exact Pres.refl _ _ _
+  · exact Pres.refl _ _ _
+  · exact applyStageW_pres E cfg hE _ _ _
+
+theorem cleanLineW_pres (E : Env) (cfg : Cfg) (hE : HexDigest E) (call : Call) (s : LSt) (line : Str) :
+    Pres E cfg s.1 (cleanLineW E cfg call s line).1.1 :=
+  foldl_pres E cfg (fun a : LSt × Option (Option Str) => a.1.1) (stageStepW E cfg)
+    (fun a x => stageStepW_pres E cfg hE a x) _ (s, some (some (line.take maxLineLength)))
+
+theorem lineLoopW_pres (E : Env) (cfg : Cfg) (hE : HexDigest E) (call : Call) :
+    ∀ (ls : List Str) (s : LSt) (acc : List Str), Pres E cfg s.1 (lineLoopW E cfg call s acc ls).1.1 := by
+  intro ls
+  induction ls with
+  | nil => intro s acc; exact Pres.refl _ _ _
+  | cons l ls ih =>
+    intro s acc
+    simp only [lineLoopW]
+    have h1 := cleanLineW_pres E cfg hE call s l
+    split
+    · exact h1
+    · exact h1.trans (ih _ _)
+    · exact h1.trans (ih _ _)
+
+theorem cleanContentW_pres (E : Env) (cfg : Cfg) (hE : HexDigest E) (st : St) (call : Call) :
+    Pres E cfg st (cleanContentW E cfg st call).1 := by
+  have h := lineLoopW_pres E cfg hE call call.lines.reverse (st, call.allowlist.getD []) []
+  simp only [cleanContentW]
+  split
+  · exact h
+  · split <;> exact h
+
+theorem runHistoryW_pres (E : Env) (cfg : Cfg) (hE : HexDigest E) :
+    ∀ (cs : List (Call × Bool)) (st : St), Pres E cfg st (runHistoryW E cfg st cs).1 := by
+  intro cs
+  induction cs with
+  | nil => intro st; exact Pres.refl _ _ _
+  | cons c cs ih =>
+    intro st
+    obtain ⟨c, w⟩ := c
+    simp only [runHistoryW]
+    cases w with
+    | true => exact (cleanContentW_pres E cfg hE st c).trans (ih _)
+    | false => exact (cleanContent_pres E cfg hE st c).trans (ih _)
+
+
 end IV.CleanState
